@@ -343,6 +343,53 @@ var Helpers = []*HelperEntity{
 			return one(c)
 		},
 		Model: func(p []int, in [][]F) [][]F { return [][]F{mapModel(in[0], func(v F) F { return -v })} }},
+	// the helpers are generic over the element type: float32 and int instantiations of the
+	// arithmetic ones (what is rounded, truncated or overflows depends on the type)
+	{Name: "helper.TypedFloat32", NIn: 1, NParam: 1, // RoundDigits, MultiplyBy, ChangePercent over float32
+		Build: func(p []int, in []<-chan F) []<-chan F {
+			c := helper.Duplicate(helper.Map(in[0], func(v F) float32 { return float32(v) / 8 * 1.005 }), 3)
+			toF := func(x <-chan float32) <-chan F { return helper.Map(x, func(v float32) F { return F(v) }) }
+			return []<-chan F{toF(helper.RoundDigits(c[0], p[0]%4)), toF(helper.MultiplyBy(c[1], float32(1.1))), toF(helper.ChangePercent(c[2], 1))}
+		},
+		Model: func(p []int, in [][]F) [][]F {
+			r := [][]F{{}, {}, {}}
+			var prev float32
+			for i, v := range in[0] {
+				x := float32(v) / 8 * 1.005
+				m := math.Pow(10, float64(p[0]%4))
+				r[0] = append(r[0], F(float32(math.Round(float64(x)*m)/m))) // the scalar rule, element by element
+				r[1] = append(r[1], F(x*float32(1.1)))
+				if i > 0 {
+					r[2] = append(r[2], F((x-prev)/prev*100))
+				}
+				prev = x
+			}
+			return r
+		}},
+	{Name: "helper.TypedInt", NIn: 1, NParam: 1, // RoundDigits, MultiplyBy, DivideBy, ChangePercent over int16 (values 6..19)
+		Build: func(p []int, in []<-chan F) []<-chan F {
+			c := helper.Duplicate(helper.Map(in[0], func(v F) int16 { return int16(v) + 10 }), 4)
+			toF := func(x <-chan int16) <-chan F { return helper.Map(x, func(v int16) F { return F(v) }) }
+			k := int16(p[0]%5 + 2)
+			return []<-chan F{toF(helper.RoundDigits(c[0], p[0]%3)), toF(helper.MultiplyBy(c[1], 3000*k)), toF(helper.DivideBy(c[2], k)), toF(helper.ChangePercent(c[3], 1))}
+		},
+		Model: func(p []int, in [][]F) [][]F {
+			r := [][]F{{}, {}, {}, {}}
+			k := int16(p[0]%5 + 2)
+			var prev int16
+			for i, v := range in[0] {
+				x := int16(v) + 10
+				m := math.Pow(10, float64(p[0]%3))
+				r[0] = append(r[0], F(int16(math.Round(float64(x)*m)/m)))
+				r[1] = append(r[1], F(x*(3000*k))) // wraps around like any int16 product
+				r[2] = append(r[2], F(x/k))
+				if i > 0 {
+					r[3] = append(r[3], F((x-prev)/prev*100))
+				}
+				prev = x
+			}
+			return r
+		}},
 	{Name: "helper.FieldPromoted", NIn: 1, // a field promoted from an embedded struct (asset rows embedding a price struct)
 		Build: func(p []int, in []<-chan F) []<-chan F {
 			rows := helper.Map(in[0], func(v F) *fieldOuter { return &fieldOuter{N: 7, fieldRow: fieldRow{A: v, B: 2 * v}} })
